@@ -97,6 +97,16 @@ def build_harness():
     return binp
 
 
+def excluded_families():
+    """families whose driver / overlay did not compile against REPO's tree and were left out of the harness"""
+    tag = hashlib.md5(REPO.encode()).hexdigest()[:8]
+    binp = os.path.join(VERIF, "bin", "harness" if REPO == "/repo" else "harness-" + tag)
+    try:
+        return {x for x in open(binp + ".excluded").read().split() if x}
+    except OSError:
+        return set()
+
+
 def ensure_numclass():
     c = os.path.join(SPEC, "Num.class")
     if not os.path.exists(c) or os.path.getmtime(c) < os.path.getmtime(os.path.join(SPEC, "Num.java")):
